@@ -397,6 +397,7 @@ type metaEntry struct {
 	Sig      string
 	Pos      token.Pos
 	HasParam bool
+	UID      int64 // the Uid field of the entry (-1 if not a constant)
 }
 
 // metaTables: per receiver type, the entries of the MetaObject literal its
@@ -465,7 +466,7 @@ func readMetaLiteral(p *packages.Package, cl *ast.CompositeLit) []metaEntry {
 			if !ok {
 				continue
 			}
-			e := metaEntry{Kind: kind, Pos: rkv.Pos(), ID: -1}
+			e := metaEntry{Kind: kind, Pos: rkv.Pos(), ID: -1, UID: -1}
 			if tv, ok := p.TypesInfo.Types[rkv.Key]; ok && tv.Value != nil {
 				if v, ok := constant.Int64Val(constant.ToInt(tv.Value)); ok {
 					e.ID = v
@@ -485,6 +486,13 @@ func readMetaLiteral(p *packages.Package, cl *ast.CompositeLit) []metaEntry {
 					continue
 				}
 				s, isStr := str(fkv.Value)
+				if fk.Name == "Uid" {
+					if tv, ok := p.TypesInfo.Types[fkv.Value]; ok && tv.Value != nil {
+						if v, ok := constant.Int64Val(constant.ToInt(tv.Value)); ok {
+							e.UID = v
+						}
+					}
+				}
 				switch fk.Name {
 				case "Name":
 					e.Name = s
@@ -629,6 +637,13 @@ func ruleStatedShapes(c *core.Ctx, rule string) {
 		disp := actionDispatch(c, named)
 		tkey := strings.TrimPrefix(named.String(), core.Module+"/")
 		for _, e := range tables[named] {
+			if e.UID >= 0 && e.ID >= 0 {
+				// the identifier an entry carries is the key it is stored (and dispatched) under:
+				// the IDL and the proxies are generated from the Uid, messages are routed by the key
+				c.Check(e.UID == e.ID, rule, fmt.Sprintf("%s/%s-uid:%d:%s", tkey, e.Kind, e.ID, e.Name), e.Pos,
+					"Uid equals the key of the entry",
+					fmt.Sprintf("the %s %q is stored under %d and says its Uid is %d: a client built from the meta-object addresses an action the object does not serve under that number", e.Kind, e.Name, e.ID, e.UID))
+			}
 			if e.Kind != "method" {
 				continue
 			}
